@@ -29,6 +29,7 @@ partial def basicValid (lo hi mll : Int) : Val → Bool
   | .node (.int n) _ => decide (lo ≤ n) && decide (n ≤ hi)
   | .node .list xs => (decide (mll < 0) || decide ((xs.length : Int) ≤ mll)) && xs.all (basicValid lo hi mll)
   | .node (.clo _) _ => false
+  | .node (.str _) _ => false
 
 def decodeValidator : Sexp → Option (Option Val → Bool)
   | .list [.atom "basic", lo, hi, mll] => do
